@@ -176,6 +176,89 @@ def usernameInfo (s : Bytes) (term : Option UInt8) (d : DAuth) : IRes (UnameInfo
     | .null => .null
     | .overread => .overread
 
+/-! ### the one allocated block: `get_rq_unames_size` and where the returned pointers point
+
+  Both API functions `calloc` the result structure plus `unif_buf_size` bytes and place every string
+  they return into that buffer, one after the other.  `Lay` records the buffer size and, for every
+  returned pointer, its offset in the buffer and the length reported next to it (a NUL is stored behind
+  every string; `userhash_bin` has no terminator). -/
+
+def rawLen : Option Param → Nat
+  | some p => p.raw.length
+  | none => 0
+
+/-- `get_rq_unames_size (params, uname_type)` -/
+def unamesSize (d : DAuth) (ut : Nat) : Nat :=
+  if ut = unStandard ∨ ut = unUserhash then
+    (rawLen (d.slots kUsername) + 1) + (if ut = unUserhash then (rawLen (d.slots kUsername) + 1) / 2 else 0)
+  else if ut = unExtended then rawLen (d.slots kUsernameExt) - (extPrefix.length + 1) + 1
+  else 0
+
+structure Lay where
+  size : Nat                          -- `unif_buf_size`
+  user : Option (Nat × Nat)           -- `username`: (offset, `username_len`)
+  uhh : Option (Nat × Nat)            -- `userhash_hex`: (offset, `userhash_hex_len`)
+  uhb : Option (Nat × Nat)            -- `userhash_bin`: (offset, number of bytes)
+  opaq : Option (Nat × Nat)
+  realm : Option (Nat × Nat)
+  touched : Nat                       -- one more than the highest offset `get_rq_uname` may write to
+  used : Nat                          -- `unif_buf_used` at the end
+  deriving DecidableEq, Repr
+
+/-- pointers set by `get_rq_uname (params, uname_type, uname_info, buf, buf_size)` and its return value
+    `buf_used`, from its result; `MHD_hex_to_bin` writes up to `(len + 1) / 2` bytes behind the
+    hexadecimal string also when it fails -/
+def unameLay (ut : Nat) (u : UnameInfo) : Option (Nat × Nat) × Option (Nat × Nat) × Option (Nat × Nat) × Nat × Nat :=
+  if ut = unStandard ∨ ut = unExtended then
+    match u.username with
+    | some n => (some (0, n.length), none, none, n.length + 1, n.length + 1)
+    | none => (none, none, none, 0, 0)
+  else if ut = unUserhash then
+    match u.userhashHex with
+    | some h =>
+      let touched := h.length + 1 + (h.length + 1) / 2
+      match u.userhashBin with
+      | some b => (none, some (0, h.length), some (h.length + 1, b.length), touched, h.length + 1 + b.length)
+      | none => (none, some (0, h.length), none, touched, h.length + 1)
+    | none => (none, none, none, 0, 0)
+  else (none, none, none, 0, 0)
+
+/-- layout of the block returned by `MHD_digest_auth_get_request_info3` -/
+def requestInfoLay (s : Bytes) (term : Option UInt8) (d : DAuth) : IRes Lay :=
+  let ut := unameType d
+  let un : IRes UnameInfo :=
+    if ut ≠ unMissing ∧ ut ≠ unInvalid then rqUname s term d ut
+    else .ok ⟨ut, none, none, none⟩
+  match un with
+  | .ok u =>
+    let ul := unameLay ut u
+    let osz := match d.slots kOpaque with | some p => p.raw.length + 1 | none => 0
+    let rsz := match d.slots kRealm with | some p => p.raw.length + 1 | none => 0
+    let oused := match d.slots kOpaque with | some p => (paramUnq p).length + 1 | none => 0
+    .ok { size := unamesSize d ut + osz + rsz,
+          user := ul.1, uhh := ul.2.1, uhb := ul.2.2.1,
+          opaq := (d.slots kOpaque).map fun p => (ul.2.2.2.2, (paramUnq p).length),
+          realm := (d.slots kRealm).map fun p => (ul.2.2.2.2 + oused, (paramUnq p).length),
+          touched := ul.2.2.2.1,
+          used := ul.2.2.2.2 + oused + (match d.slots kRealm with | some p => (paramUnq p).length + 1 | none => 0) }
+  | .null => .null
+  | .overread => .overread
+
+/-- layout of the block returned by `MHD_digest_auth_get_username3` -/
+def usernameLay (s : Bytes) (term : Option UInt8) (d : DAuth) : IRes Lay :=
+  let ut := unameType d
+  if ut = unMissing ∨ ut = unInvalid then .null
+  else
+    match rqUname s term d ut with
+    | .ok u =>
+      if u.utype = unInvalid then .null
+      else
+        let ul := unameLay ut u
+        .ok { size := unamesSize d ut, user := ul.1, uhh := ul.2.1, uhb := ul.2.2.1, opaq := none, realm := none,
+              touched := ul.2.2.2.1, used := ul.2.2.2.2 }
+    | .null => .null
+    | .overread => .overread
+
 /-- the two API calls on a connection whose `Authorization` value is `value`
     (NUL-terminated in the connection buffer): `find_auth_rq_header_` for "Digest",
     `parse_dauth_params`, projections.  `none` = no/invalid Digest header (NULL). -/
@@ -191,6 +274,37 @@ def digestApi (value : Bytes) : Res (Option (IRes DigestInfo × IRes (UnameInfo 
 /-- `MHD_basic_auth_get_username_password3` on such a connection -/
 def basicApi (value : Bytes) : Option (Bytes × Option Bytes) :=
   match findAuthHeader true basicBase [⟨headerKind, authHeader, value⟩] with
+  | none => none
+  | some (_, _, av) => basicInfo av
+
+/-! ### several request headers (`MHD_get_rq_dauth_params_` / `MHD_get_rq_bauth_params_`)
+
+  Both look for the *first* header of kind `MHD_HEADER_KIND` named `Authorization` whose value starts with
+  the scheme token followed by SP / HT or nothing, parse that one, and cache the outcome for the request:
+  a first matching header that does not parse gives "no credentials" even when a later one would parse;
+  headers of the other scheme are passed over. -/
+
+/-- outcome of `MHD_get_rq_dauth_params_`: the `Authorization` value found, and its parameters -/
+def dauthParams (hs : List Hdr) : Res (Option (Bytes × DAuth)) :=
+  match findAuthHeader true digestBase hs with
+  | none => .ok none
+  | some (_, _, av) =>
+    match parseDigest av (some 0) with
+    | .ok d => .ok (some (av, d))
+    | .reject => .ok none
+    | .fault e => .fault e
+
+/-- the two Digest API calls on a connection with the request headers `hs` -/
+def digestApiH (hs : List Hdr) : Res (Option (IRes DigestInfo × IRes (UnameInfo × Nat))) :=
+  (dauthParams hs).map fun o => o.map fun (av, d) => (requestInfo av (some 0) d, usernameInfo av (some 0) d)
+
+/-- … and the layouts of the two blocks they return -/
+def digestLayH (hs : List Hdr) : Res (Option (IRes Lay × IRes Lay)) :=
+  (dauthParams hs).map fun o => o.map fun (av, d) => (requestInfoLay av (some 0) d, usernameLay av (some 0) d)
+
+/-- `MHD_basic_auth_get_username_password3` on such a connection -/
+def basicApiH (hs : List Hdr) : Option (Bytes × Option Bytes) :=
+  match findAuthHeader true basicBase hs with
   | none => none
   | some (_, _, av) => basicInfo av
 
